@@ -307,3 +307,120 @@ Proof.
 Qed.
 
 End AffineFloatC.
+
+(* ---------------------------------------------------------------- the statement with elementary hypotheses *)
+Local Open Scope R_scope.
+(* z is finite in both parts, holds (a + i b) 2^e exactly *)
+Definition gdy (z : cf) (a b e : Z) : Prop :=
+  ffinite (re z) /\ FR (re z) = IZR a * bpow radix2 e /\ ffinite (im z) /\ FR (im z) = IZR b * bpow radix2 e.
+(* neither part is the negative zero *)
+Definition cnnz (z : cf) : Prop := re z <> (-0)%float /\ im z <> (-0)%float.
+
+Lemma jacobian_affine_exact_float_C_thm (M : matrix (CArith SAF)) (c x : list cf) (d : PrimFloat.float)
+    (Mr Mi : nat -> nat -> Z) (Cr Ci Xr Xi : nat -> Z) (Dd eM eX : Z) :
+  wf M -> length x = cols M ->
+  (forall i j, (i < rows M)%nat -> (j < cols M)%nat ->
+     gdy (ment (NCplx SAF) M i j) (Mr i j) (Mi i j) eM /\ cnnz (ment (NCplx SAF) M i j)) ->
+  (forall j, (j < cols M)%nat -> gdy (nth j x (@zero (CArith SAF))) (Xr j) (Xi j) eX /\ cnnz (nth j x (@zero (CArith SAF)))) ->
+  (forall i, (i < rows M)%nat -> gdy (nth i c (@zero (CArith SAF))) (Cr i) (Ci i) (eM + eX)) ->
+  ffinite d -> FR d = IZR Dd * bpow radix2 eX -> (0 < Dd)%Z ->
+  (-1074 <= eX <= 971)%Z -> (-1074 <= eM <= 971)%Z -> (-1074 <= eM + eX <= 971)%Z ->
+  (-1074 <= eX + eX <= 971)%Z -> (-1074 <= eM + eX + eX <= 971)%Z ->
+  (forall j, (j < cols M)%nat -> (Z.abs (Xr j) + Dd < 2 ^ 53 /\ Z.abs (Xi j) < 2 ^ 53)%Z) ->
+  (forall i, (i < rows M)%nat ->
+     (zsumn (cols M) (fun k => (Z.abs (Mr i k) + Z.abs (Mi i k)) * (Z.abs (Xr k) + Z.abs (Xi k) + Dd))
+      + (Z.abs (Cr i) + Z.abs (Ci i)) < 2 ^ 53)%Z) ->
+  (Dd * Dd < 2 ^ 53)%Z ->
+  (forall i j, (i < rows M)%nat -> (j < cols M)%nat -> ((Z.abs (Mr i j) + Z.abs (Mi i j)) * (Dd * Dd) < 2 ^ 53)%Z) ->
+  jacobian_tr (NCplx SAF) (fun p => Ok (aff (NCplx SAF) M c p)) x (emb (NCplx SAF) d) =
+    Ok (x, M, x :: map (perturbed (NCplx SAF) x (emb (NCplx SAF) d)) (seq 0 (length x))) /\
+  jacobian (NCplx SAF) (fun p => Ok (aff (NCplx SAF) M c p)) x (emb (NCplx SAF) d) =
+    Ok (M, x :: map (perturbed (NCplx SAF) x (emb (NCplx SAF) d)) (seq 0 (length x))).
+Proof.
+  intros Wf Lx HM HX HC Fd Rd HD HeX HeM HeE HeXX HeEX HbX Hrow HbD HbMD.
+  assert (E : jacobian_tr (NCplx SAF) (fun p => Ok (aff (NCplx SAF) M c p)) x (emb (NCplx SAF) d) =
+              Ok (x, M, x :: map (perturbed (NCplx SAF) x (emb (NCplx SAF) d)) (seq 0 (length x)))).
+  { apply (jacobian_affine_exact_float_C_lemma M c x d Mr Mi Cr Ci Xr Xi Dd eM eX Wf Lx).
+    - intros i j Hi Hj. destruct (HM i j Hi Hj) as ((F1 & R1 & F2 & R2) & N1 & N2).
+      split; (split; [split; assumption|now apply NNZ_neg0]).
+    - intros j Hj. destruct (HX j Hj) as ((F1 & R1 & F2 & R2) & N1 & N2).
+      split; (split; [split; assumption|now apply NNZ_neg0]).
+    - intros i Hi. destruct (HC i Hi) as (F1 & R1 & F2 & R2). split; split; assumption.
+    - split; assumption.
+    - exact HD.
+    - exact HeX.
+    - exact HeM.
+    - exact HeE.
+    - exact HeXX.
+    - exact HeEX.
+    - exact HbX.
+    - exact Hrow.
+    - exact HbD.
+    - exact HbMD. }
+  split; [exact E|]. unfold jacobian. rewrite E. reflexivity.
+Qed.
+Local Close Scope R_scope.
+
+(* ---------------------------------------------------------------- non-vacuity: delta = 2^-20, Gaussian-integer 2 x 2 matrix *)
+Notation Cf a b := (mkC (A := AF) a%float b%float).
+Definition exc_M : matrix (CArith SAF) := @mkM (CArith SAF) [Cf 1 2; Cf (-1) 0; Cf 0 3; Cf 2 (-1)] 2 2.
+Definition exc_c : list cf := [Cf 0.5 0.25; Cf 1 0].
+Definition exc_x : list cf := [Cf 0.5 (-1.25); Cf 3 0.75].
+Definition exc_Mr (i j : nat) : Z := nth (i * 2 + j) [1; -1; 0; 2]%Z 0%Z.
+Definition exc_Mi (i j : nat) : Z := nth (i * 2 + j) [2; 0; 3; -1]%Z 0%Z.
+Definition exc_Xr (j : nat) : Z := nth j [524288; 3145728]%Z 0%Z.
+Definition exc_Xi (j : nat) : Z := nth j [-1310720; 786432]%Z 0%Z.
+Definition exc_Cr (i : nat) : Z := nth i [524288; 1048576]%Z 0%Z.
+Definition exc_Ci (i : nat) : Z := nth i [262144; 0]%Z 0%Z.
+
+Lemma gdy_intro (z : cf) a b e : Dy (re z) a e -> Dy (im z) b e -> gdy z a b e.
+Proof. intros [F1 R1] [F2 R2]. repeat split; assumption. Qed.
+Ltac gdyw := apply gdy_intro; cbn; dyw.
+Ltac cnnzw := split; cbn; neg0w.
+
+Lemma exc_M_dy i j : (i < 2)%nat -> (j < 2)%nat ->
+  gdy (ment (NCplx SAF) exc_M i j) (exc_Mr i j) (exc_Mi i j) 0 /\ cnnz (ment (NCplx SAF) exc_M i j).
+Proof.
+  intros Hi Hj.
+  do 2 (destruct i as [|i]; [do 2 (destruct j as [|j]; [split; [gdyw|cnnzw]|]); lia|]). lia.
+Qed.
+Lemma exc_x_dy j : (j < 2)%nat ->
+  gdy (nth j exc_x (@zero (CArith SAF))) (exc_Xr j) (exc_Xi j) (-20) /\ cnnz (nth j exc_x (@zero (CArith SAF))).
+Proof. intros Hj. do 2 (destruct j as [|j]; [split; [gdyw|cnnzw]|]). lia. Qed.
+Lemma exc_c_dy i : (i < 2)%nat -> gdy (nth i exc_c (@zero (CArith SAF))) (exc_Cr i) (exc_Ci i) (0 + -20).
+Proof. intros Hi. do 2 (destruct i as [|i]; [gdyw|]). lia. Qed.
+Lemma exc_bx j : (j < 2)%nat -> Z.abs (exc_Xr j) + 1 < 2 ^ 53 /\ Z.abs (exc_Xi j) < 2 ^ 53.
+Proof. intros Hj. do 2 (destruct j as [|j]; [cbn; lia|]). lia. Qed.
+Lemma exc_brow i : (i < 2)%nat ->
+  zsumn 2 (fun k => (Z.abs (exc_Mr i k) + Z.abs (exc_Mi i k)) * (Z.abs (exc_Xr k) + Z.abs (exc_Xi k) + 1))
+  + (Z.abs (exc_Cr i) + Z.abs (exc_Ci i)) < 2 ^ 53.
+Proof. intros Hi. do 2 (destruct i as [|i]; [cbn; lia|]). lia. Qed.
+Lemma exc_bmd i j : (i < 2)%nat -> (j < 2)%nat -> (Z.abs (exc_Mr i j) + Z.abs (exc_Mi i j)) * (1 * 1) < 2 ^ 53.
+Proof. intros Hi Hj. do 2 (destruct i as [|i]; [do 2 (destruct j as [|j]; [cbn; lia|]); lia|]). lia. Qed.
+
+Example exc_value :
+  jacobian (NCplx SAF) (fun p => Ok (aff (NCplx SAF) exc_M exc_c p)) exc_x (emb (NCplx SAF) exj_d) =
+    Ok (exc_M, [exc_x; [Cf 0x1.00002p-1 (-1.25); Cf 3 0.75]; [Cf 0.5 (-1.25); Cf 0x1.800008p+1 0.75]]).
+Proof. vm_compute. reflexivity. Qed.
+
+(* outside the hypotheses (delta = 1e-8, x_0 = 0.9999999999 - 1.25 i): no non-zero part of the result is exact -- the entry
+   -1 + 0 i comes back with imaginary part -2.2e-8 -- and re x_0 comes back one ulp smaller *)
+Example exc_inexact :
+  exists st J evs,
+    jacobian_tr (NCplx SAF) (fun p => Ok (aff (NCplx SAF) exc_M exc_c p)) [Cf 0x1.ffffffff2419p-1 (-1.25); Cf 3 0.75]
+                (emb (NCplx SAF) exj_d2) = Ok (st, J, evs) /\
+    map (fun k => PrimFloat.eqb (re (nth k (buf J) (@zero (CArith SAF)))) (re (nth k (buf exc_M) (@zero (CArith SAF))))) (seq 0 4) =
+      [false; false; true; false] /\
+    PrimFloat.ltb (im (nth 1 (buf J) (@zero (CArith SAF)))) 0%float = true /\
+    PrimFloat.ltb (re (nth 0 st (@zero (CArith SAF)))) 0x1.ffffffff2419p-1%float = true.
+Proof. do 3 eexists. split; [vm_compute; reflexivity|]. repeat split; vm_compute; reflexivity. Qed.
+
+(* the sign hypothesis is needed: im x_0 = -0 is "restored" to +0 -- in fact already the first call is made at im = +0 *)
+Example exc_negzero :
+  exists st J evs,
+    jacobian_tr (NCplx SAF) (fun p => Ok (aff (NCplx SAF) exc_M exc_c p)) [Cf 0.5 (-0); Cf 3 0.75] (emb (NCplx SAF) exj_d)
+      = Ok (st, J, evs) /\
+    PrimFloat.get_sign (im (nth 0 st (@zero (CArith SAF)))) = false /\
+    PrimFloat.get_sign (im (nth 0 (nth 1 evs []) (@zero (CArith SAF)))) = false /\
+    PrimFloat.get_sign (-0)%float = true.
+Proof. do 3 eexists. split; [vm_compute; reflexivity|]. repeat split; vm_compute; reflexivity. Qed.
